@@ -120,6 +120,18 @@ class FunctionNode(ConfigDict):
         keyword_args = { key: value for key, value in args.items() if isinstance(key, str) }
         assert len(positional_args) + len(keyword_args) == len(args)
 
+        idx = 0
+        unpack = []
+        while True:
+            if idx not in positional_args:
+                break
+            unpack.append(positional_args.pop(idx))
+            idx += 1
+
+        if not positional_args:
+            # no gaps: the signature - which many builtins (int, dict, range, ...) do not have - is not needed
+            return unpack, {}, keyword_args
+
         import inspect
         sig = inspect.signature(func)
         params = list(sig.parameters.values())
@@ -128,14 +140,6 @@ class FunctionNode(ConfigDict):
             if p.kind == inspect.Parameter.VAR_POSITIONAL:
                 break
             idx_to_name.append(p.name)
-
-        idx = 0
-        unpack = []
-        while True:
-            if idx not in positional_args:
-                break
-            unpack.append(positional_args.pop(idx))
-            idx += 1
 
         kw_positional_args = {}
         for idx, value in positional_args.items():
